@@ -9,6 +9,7 @@ from . import c01
 
 THEOREMS = '''cm_energy_offset ff_energy_offset cm_basis_change basisMix_spec ff_basis_independent
 ff_basis_independent_real cm_frame_covariance ff_frame_independent'''.split()
+PINS = ['pinIdentityElementIndex']
 GEN_SITES = c01.GEN_SITES
 COMPONENTS = c01.COMPONENTS
 RULES = ['correspondence: as C01; search: pairs of complete orthonormal Hermitian bases (GGM, Pauli, '
@@ -35,6 +36,14 @@ def basis_of(rng, d, kind):
         part = gens.rotated_basis(rng, d, True)[:int(rng.integers(1, d*d))]
         b = ff.Basis.from_partial(part)
         return ('custom', np.array(b), bool(b.istraceless), 'Custom')
+    if kind == 'shuffled_tl':
+        # a traceless basis whose identity element is not the first one
+        arr = gens.rotated_basis(rng, d, True)
+        arr = arr[rng.permutation(len(arr))]
+        return ('custom', arr, True, 'Custom')
+    if kind == 'derived':
+        how = str(rng.choice(['permute', 'conj', 'transpose', 'ctor', 'scale_normalize']))
+        return ('derived', ('ggm',), how, int(rng.integers(0, 2**31)))
     tl = kind == 'rot_tl'
     return ('custom', gens.rotated_basis(rng, d, tl), tl, 'Custom')
 
@@ -129,7 +138,7 @@ def search(ctx, deep=False):
     rng = ctx.rng('deep' if deep else 'search')
     n = {('quick', False): 16, ('quick', True): 120, ('thorough', False): 300,
          ('thorough', True): 900}[(ctx.tier, deep)]
-    kinds_all = ['ggm', 'pauli', 'rot_tl', 'rot_ntl', 'partial']
+    kinds_all = ['ggm', 'pauli', 'rot_tl', 'rot_ntl', 'partial', 'shuffled_tl', 'derived']
     for i in range(n):
         feats = gens.rand_features(rng, 0.25, ['idle', 'zero_dt', 'degenerate', 'nontraceless_nop',
                                                'neg_sens', 'structured'])
